@@ -37,7 +37,7 @@ def bounds(tier):
 
 
 def goals(tier):
-    return ["three-modules", "records-sharing-an-id", "annotated-participants", "rotated-and-respelled-participants", "several-unused-modules-sharing-an-id", "identical-sequence-twins", "product", "error-InvalidSequence", "error-DuplicateModules", "error-MissingModule", "palindromic-start-on-chain",
+    return ["three-modules", "records-sharing-an-id", "annotated-participants", "rotated-and-respelled-participants", "anonymous-plasmids-of-equal-length", "several-unused-modules-sharing-an-id", "identical-sequence-twins", "product", "error-InvalidSequence", "error-DuplicateModules", "error-MissingModule", "palindromic-start-on-chain",
             "self-loop-module", "unused-module", "revcomp-starts", "equal-starts", "several-reasons"]
 
 
@@ -146,7 +146,22 @@ def evaluate(st, scn):
     M, V = gen.generic_classes(enz)
     idmode = scn.get("ids", "distinct")
     v = V(gen.crec(vs[0], "vec"))
-    if idmode == "rotated":
+    if idmode == "anonymous":
+        # what a script that builds everything in memory does: no record has an id, and all plasmids happen to have the same
+        # length (the shorter ones are padded with A's at the end of their backbone, which cannot complete a site)
+        from Bio.Seq import Seq as _Seq
+        from moclo.record import CircularRecord as _CR
+        g_ = gen.geometry_of(gen.enzyme(enz))
+        L_ = max([len(vs[0])] + [len(m[0]) for m in ms])
+        pv = 2 * g_.ov + len(vs[1]) + g_.off + len(g_.site)          # inside the placeholder, right after the first site
+        vpad = vs[0][:pv] + "A" * (L_ - len(vs[0])) + vs[0][pv:]
+        mpads = [m[0] + "A" * (L_ - len(m[0])) for m in ms]            # at the end of the backbone
+        if any(rm.count_sites(p_, g_) != 2 for p_ in [vpad] + mpads):
+            st.filtered += 1
+            return None
+        v = V(_CR(_Seq(vpad)))
+        ents = [M(_CR(_Seq(p_))) for p_ in mpads]
+    elif idmode == "rotated":
         # every participant stored at another rotation (modules: origin in the middle of the record, which is inside the
         # cassette for these short plasmids; vector: origin inside its first overhang), lower-case for odd module indices
         v = V(gen.crec(rm.rot_right(vs[0], len(vs[0]) - 2), "vec"))
@@ -213,9 +228,9 @@ def evaluate(st, scn):
 def idmodes(sp, k):
     """identifier assignments of the module records: distinct ids everywhere; for the k<=2 spaces also one shared id and no id at all"""
     if sp["kmax"] <= 2 and k >= 2:
-        return ["distinct", "same", "default", "decorated", "rotated", "twins"]
+        return ["distinct", "same", "default", "decorated", "rotated", "anonymous", "twins"]
     if sp["kmax"] <= 2:
-        return ["distinct", "decorated", "rotated"]
+        return ["distinct", "decorated", "rotated", "anonymous"]
     if k >= 2:
         return ["distinct", "twins"]
     return ["distinct"]
@@ -248,6 +263,9 @@ def run_unit(unit, st, tier):
                 elif idmode == "rotated":
                     scn["ids"] = idmode
                     st.goal("rotated-and-respelled-participants")
+                elif idmode == "anonymous":
+                    scn["ids"] = idmode
+                    st.goal("anonymous-plasmids-of-equal-length")
                 elif idmode != "distinct":
                     scn["ids"] = idmode
                     st.goal("records-sharing-an-id")
